@@ -142,6 +142,26 @@ Proof.
   split; [exact (X1 d b alpha beta mx S)|exact (X2 d b mx S)].
 Qed.
 
+(** the oracle the correspondence uses at larger depths (full-window alpha-beta of every child)
+    is the plain-minimax list of root values *)
+Theorem root_values_ab_eq : forall d b,
+  Sound (S d) b ->
+  Search.root_values_ab T rook_t bishop_t (S d) b = Search.root_values T rook_t bishop_t (S d) b.
+Proof.
+  intros d b S.
+  destruct (Sound_gen_moves_total T rook_t bishop_t (Datatypes.S d) b S) as [ms G].
+  unfold Search.root_values_ab, Search.root_values. rewrite G. cbn [bind Nat.pred].
+  assert (Hall : forall m, In m ms -> In m ms) by (intros m Hm; exact Hm).
+  revert Hall. generalize ms at 1 3 4. intros l. induction l as [|m l IH]; intros Hall; [reflexivity|].
+  cbn [fold_right]. rewrite IH by (intros m' Hm'; apply Hall; right; exact Hm').
+  match goal with |- bind ?X _ = _ => destruct X as [r| |] end; cbn [bind]; try reflexivity.
+  destruct (apply_move T m b) as [b2| |] eqn:A; cbn [unwrap bind]; try reflexivity.
+  pose proof (Sound_step T rook_t bishop_t d b ms b m b2 S G (Hall m (or_introl eq_refl)) A) as S2.
+  pose proof (ab_full_window_chess_ix T rook_t bishop_t (Reach.Sound T rook_t bishop_t)) as X. feed X.
+  destruct (X d (toggle_turn b2) (negb (maximize (turn b))) S2) as (v & Ea & Em).
+  rewrite Ea, Em. reflexivity.
+Qed.
+
 (* ------------------------------------------------------------------ *)
 (** * C09: the shared cache and the parallel root tasks *)
 
